@@ -280,20 +280,46 @@ impl Responder {
             Some(_) => 1,
         };
         let state = LtServer { realm, nonce, algs: list, key_alg, anonymity, counter: self.seq };
+        // variants 4 / 5: a 401 inside an established session that carries an integrity
+        // attribute (4: under a wrong key, 5: valid under the CURRENT key)
+        let (integ, key) = match (variant, &self.lt) {
+            (4, Some(lt)) => (if lt.algs.is_some() { Integ::ShaWrongKey } else { Integ::MiWrongKey }, lt_key(&self.cfg.user, &lt.realm, &self.cfg.password, lt.key_alg)),
+            (5, Some(_)) => self.good_auth(false),
+            _ => (Integ::None, vec![]),
+        };
         let bytes = craft(&Reply {
             class: 3,
             method,
             txid: *txid,
             error_code: Some((401, "Unauthenticated".into())),
             extra,
-            integ: Integ::None,
-            key: vec![],
+            integ,
+            key,
             fp: self.fp(),
         });
         (bytes, state)
     }
 
     /// 438 with a fresh nonce (authenticated with the current key when `with_integrity`)
+    /// 438 whose integrity attribute fails verification (must be ignored, nonce unchanged)
+    pub fn stale_bad_integrity(&mut self, txid: &Id, method: u16) -> Option<Vec<u8>> {
+        let lt = self.lt.clone()?;
+        self.seq += 1;
+        let nonce = format!("forged-stale{}", self.seq);
+        let extra = vec![(wire::T_REALM, lt.realm.as_bytes().to_vec()), (wire::T_NONCE, nonce.as_bytes().to_vec())];
+        let key = lt_key(&self.cfg.user, &lt.realm, &self.cfg.password, lt.key_alg);
+        Some(craft(&Reply {
+            class: 3,
+            method,
+            txid: *txid,
+            error_code: Some((438, "Stale Nonce".into())),
+            extra,
+            integ: if lt.algs.is_some() { Integ::ShaWrongKey } else { Integ::MiWrongKey },
+            key,
+            fp: self.fp(),
+        }))
+    }
+
     pub fn stale(&mut self, txid: &Id, method: u16, with_integrity: bool) -> Option<(Vec<u8>, String)> {
         let lt = self.lt.clone()?;
         self.seq += 1;
